@@ -511,6 +511,18 @@ C03_EXTRA = [
 ]
 
 
+# only for C10: every production of one non-terminal carries weight zero
+C10_EXTRA = [
+    {"id": "allzero", "start": "Expr", "classes": [
+        _c("Expr", "", abstract=True), _c("F", "", abstract=True),
+        _c("Lit", "Expr", [("v", I01)]), _c("Flag", "Expr", [("f", ("sym", "F")), ("e", E)]),
+        _c("FA", "F", [], weight=0), _c("FB", "F", [], weight=0)]},
+]
+# linear recursion: a limit of a thousand levels is affordable and must be usable
+CHAIN = {"id": "chain", "start": "Expr", "classes": [
+    _c("Expr", "", abstract=True), _c("Leaf", "Expr", [("v", I01)]), _c("Wrap", "Expr", [("e", E)])]}
+
+
 def declared_from_spec(decl, spec):
     """overwrite the reflected weights / abstract flags of a projected declaration with what the spec (the text the classes
     were generated from) says: the decorators store them in the same per-class dict the library reads"""
